@@ -121,9 +121,11 @@ def reversibleL : List Op → Bool
 end
 
 /-- the op carries nothing that `reverse()` is known to lose (hypothesis of the `_partial`
-theorems; each conjunct is a recorded finding):
-F11 `modify_name`; F13 operation-level directives (`if_exists`, `if_not_exists`, `**kw` of
-add/drop column); F14 falsy `deferrable` / `initially` on unique and foreign key constraints. -/
+theorems): F13 operation-level directives (`if_exists`, `if_not_exists`, `**kw` of add/drop
+column) are rebuilt from the schema object and dropped.  The remaining conjuncts are
+representation conditions, not findings: a `CreatePrimaryKeyOp` carries dialect kwargs only (no
+`deferrable`/`initially`: `create_primary_key` has no such parameter), index `kw` holds dialect
+kwargs only, and `create_table_comment(comment=None)` is a `drop_table_comment` in disguise. -/
 def consClean (c : ConsDef) : Bool := c.roundTrip == c
 
 mutual
@@ -136,7 +138,6 @@ def clean : Op → Bool
   | .dropIndex _ _ _ f _ _ => f.isNone
   | .addConstraint c => consClean c
   | .dropConstraint _ _ _ _ _ => true
-  | .alterColumn a => a.modifyName.isNone
   | .createTableComment _ _ c _ => c.isSome     -- `comment=None` is a drop_table_comment in disguise
   | .modifyTable _ _ ops => cleanL ops
   | _ => true
@@ -248,7 +249,8 @@ def accurate (o : Op) (db : DB) : Prop :=
       (a.modifyType.isSome → a.existingType = some c.ty) ∧
       (a.modifyNullable.isSome → a.existingNullable = some c.nullable) ∧
       (a.modifyDefault ≠ .unset → a.existingDefault = (match c.default with | some s => Tri.val s | none => Tri.null)) ∧
-      (a.modifyComment ≠ .unset → a.existingComment = c.comment)
+      (a.modifyComment ≠ .unset → a.existingComment = c.comment) ∧
+      (a.modifyName.isSome → c.name = a.column)
   | .createTableComment table schema _ existing =>
     ∃ t, db (schema, table) = some t ∧ t.comment = existing
   | .dropTableComment table schema existing =>
